@@ -202,6 +202,8 @@ def _c02_o6(W, ob):
     return _m.o6(W, ob)
 
 
+from . import inventory
+
 OBLIGATIONS = [
     ('C09.O1', 'examine before confirm', 'in advance_frame_after_poll no checksum send/compare site is reachable after a call that may reach '
      'set_last_confirmed_frame; both run on every advance while detection is on.', o1),
@@ -217,4 +219,5 @@ OBLIGATIONS = [
     ('C09.R', 'who may remove', 'every call that takes elements out of a collection this property\'s rules rely on (keyed removal from a map, or bulk / positional removal) is one of the reviewed sites in tables/removals.json; a lookup turned into a removal, a second prune, a clear on another path is reported; see rules/removals.py', removals.rule_for('C09')),
     ('C09.M', 'must-call floor', 'the calls listed for this property in tables/must_call.json are made on every path from the entry of their function to a normal return (interprocedural must-call): a new early return, fast path or extra condition in front of one of them is reported; see rules/mustcall.py', mustcall.rule_for('C09')),
     ('C09.V', 'no unreviewed condition in the pinned helpers', 'for each helper whose body this property\'s rules pin (tables/condition_terms.json), the terms its path conditions are built from (fields, parameters, call results -- no constants, operators or local names) are a subset of the reviewed vocabulary: one more `if` in front of a pinned result (a lock that may time out, "only while an endpoint is running") is reported; see rules/vocab.py', vocab.rule_for('C09')),
+    ('C09.S', 'state inventory', 'every field of the structs this property\'s rules read (tables/state.json) is known, and is written only by its reviewed writers (or helpers only they call): a new field is new state across calls -- a cache, a flag, a stored deadline -- that nothing has shown to stay in step; a new writer is a second place that resets, re-arms or moves something; see rules/inventory.py', inventory.state_rule_for('C09')),
 ]
